@@ -157,6 +157,7 @@ func RunOne(t *testing.T, e Engine, cfg RunConfig, sc any) (res *RunResult) {
 			panic(r)
 		}
 	}()
+	TakeFatals()
 	if p, ok := e.(Preparer); ok {
 		p.Prepare(cfg, sc)
 		defer p.Cleanup(cfg, sc)
@@ -227,6 +228,17 @@ func Main(t *testing.T, e Engine) {
 		if !ok {
 			out.Exhausted = true
 			break
+		}
+		FatalExit = func(msg string) {
+			raw, _ := json.Marshal(sc)
+			v := Violation{Property: prop, Class: "fatal-log", Sig: "fatal", Detail: "the library logged at Fatal level (a real process would have exited): " + msg}
+			rf := ReplayFile{Engine: e.Name(), Property: prop, Mode: mode, Tier: tier, Seed: cfg.Seed, Index: idx, Scenario: raw, Expect: &v}
+			_ = os.MkdirAll(replayDir, 0o755)
+			path := fmt.Sprintf("%s/%s-%s-%d-%d-fatal.json", replayDir, prop, mode, seed, idx)
+			b, _ := json.MarshalIndent(rf, "", " ")
+			_ = os.WriteFile(path, b, 0o644)
+			fmt.Fprintf(os.Stderr, "\nFATAL-LOG property=%s replay=%s detail=%s\n", prop, path, msg)
+			os.Exit(4)
 		}
 		res := RunOne(t, e, cfg, sc)
 		if os.Getenv("VERIF_DUMP") != "" {
@@ -325,6 +337,10 @@ func sameViolation(res *RunResult, want *Violation) *Violation {
 func replayMain(t *testing.T, e Engine, path string) {
 	rf, sc := loadReplay(t, e, path)
 	cfg := RunConfig{Property: rf.Property, Mode: rf.Mode, Tier: rf.Tier, Seed: rf.Seed, Index: rf.Index}
+	FatalExit = func(msg string) {
+		fmt.Printf("REPLAY-OK property=%s class=fatal-log sig=fatal\n%s\n", rf.Property, msg)
+		os.Exit(0)
+	}
 	res := RunOne(t, e, cfg, sc)
 	if v := sameViolation(res, rf.Expect); v != nil {
 		fmt.Printf("REPLAY-OK property=%s class=%s sig=%s\n%s\n", v.Property, v.Class, v.Sig, v.Detail)
